@@ -187,6 +187,7 @@ def run(cx, out):
     out.rule('R06.1', 'library calls applied to self in encoders are logical observers; layout/history observers forbidden; unclassified fail closed')
     out.rule('R06.2', 'no ambient state (statics, TLS, time/env/thread/random, pointer-to-integer casts) in encoders')
     out.rule('R06.3', 'logical order idioms = C01 R01.1 shapes (VecDeque halves in order, BitSlice re-chunked from the logical start, forward iteration)')
+    out.rule('R01.3', 'TYPE_INFO is overridden by exactly the 12 primitives with matching variants (rule of C01: holders encode through their target, never through the bulk path)')
     out.rule('R06.4', 'WrapperTypeEncode impls are the audited holders; local Deref returns the wrapped value')
     from . import c01
     for cfg in lib_cfgs(cx):
@@ -197,5 +198,8 @@ def run(cx, out):
         check_ambient(out, facts, S)
         check_wrappers(out, facts)
         c01.check_shapes(out, facts)
+        # holders of primitives must not be mistaken for the primitives by the bulk path (it would write pointer bytes):
+        # TYPE_INFO is overridden by exactly the 12 primitives (rule of C01 / C07)
+        c01.check_type_info(out, facts)
     from . import positive
     positive.check(cx, out, 'C06')
